@@ -145,6 +145,7 @@ def run_history(eng, fam, P, prop):
     hist = P['hist']
     try:
         d = Driver(eng, w)
+        d.cache_spellings = bool(P.get('cache_spellings'))
         nb = 0
         desc = []
         cleaned_at = None
